@@ -228,12 +228,12 @@ func c09(x *mon.Ctx) {
 			}
 		}
 		param := fmt.Sprintf("auth%d-chain%d-extra%d/%d", auth, chain, extra, i)
-		x.Crumb(i, "parse", bcase{"message", param, p.Bytes()})
+		x.Crumb(i, "parse", bcase{Class: "message", Param: param, B: p.Bytes()})
 		layout := []string{"own", "shared-forward", "shared-reversed"}[i%3]
 		param += "/" + layout
 		prob := messageProblem(p, layout)
 		if prob != "" {
-			x.Violation("message", param, prob, "parse", bcase{"message", param, p.Bytes()})
+			x.Violation("message", param, prob, "parse", bcase{Class: "message", Param: param, B: p.Bytes()})
 		}
 		x.Note("message", param, prob == "", false, prob == "")
 		if i == 0 {
